@@ -160,6 +160,56 @@ Theorem snapshot_cut_equiv_sessions :
 Proof. exact @snapshot_cut_equiv_sessions_proved. Qed.
 Print Assumptions snapshot_cut_equiv_sessions.
 
+(* a snapshot installed on a LIVE replica (lagging follower, non-empty table):
+   lrusession.load's result does not depend on the table it is called on *)
+Theorem load_replaces_table :
+  forall (result : Type) (t1 t2 : @table result) sv,
+  load_into t1 sv = load_into t2 sv /\ load_into t1 sv = load sv.
+Proof. exact @load_replaces_table_proved. Qed.
+Print Assumptions load_replaces_table.
+
+(* whatever state the live replica was in, after installing the image of st1 it
+   is exactly st1 (no session of the old table survives; order and capacity are
+   the image's) *)
+Theorem install_replaces_state :
+  forall (S result : Type) (sm_save : S -> bytes) (sm_recover : bytes -> option S),
+  (forall s, sm_recover (sm_save s) = Some s) ->
+  forall (st_old st1 : @state S result),
+  inv st1 -> 0 < t_cap (st_tab st1) ->
+  exists sn, snapshot sm_save st1 = Some (sn, st1) /\ install sm_recover st_old sn = Some st1.
+Proof. exact @install_replaces_state_proved. Qed.
+Print Assumptions install_replaces_state.
+
+Theorem lagging_replica_catches_up :
+  forall (S result : Type) (sm_update : S -> bytes -> S * result)
+         (sm_save : S -> bytes) (sm_recover : bytes -> option S),
+  (forall s, sm_recover (sm_save s) = Some s) ->
+  forall cap (s0 : S) es0 es1 es2, 0 < cap ->
+  let lag := run_state sm_update (init_state cap s0) es0 in
+  let lead := run_state sm_update (init_state cap s0) (es0 ++ es1) in
+  exists sn, snapshot sm_save lead = Some (sn, lead) /\
+  exists st', install sm_recover lag sn = Some st' /\ st' = lead /\
+              fst (run sm_update st' es2) = run_state sm_update (init_state cap s0) ((es0 ++ es1) ++ es2) /\
+              snd (run sm_update st' es2) = snd (run sm_update lead es2).
+Proof. exact @lagging_replica_catches_up_proved. Qed.
+Print Assumptions lagging_replica_catches_up.
+
+(* non-vacuity: the lagging replica still holds client 5 (unregistered on the
+   leader) and lacks client 7; after the install it has exactly the leader's table *)
+Example c05_install_witness :
+  let reg c := mkEntry c series_id_for_register 0 [] in
+  let lag := run_state acc_update (acc_init 3) [reg 5; reg 6; mkEntry 5 1 0 [1]] in
+  let lead := run_state acc_update lag [mkEntry 5 series_id_for_unregister 0 []; reg 7; mkEntry 6 1 0 [2]] in
+  map s_client (t_list (st_tab lag)) = [5; 6] /\
+  match acc_snapshot lead with
+  | Some (sn, _) => match acc_install lag sn with
+                    | Some st' => st' = lead /\ map s_client (t_list (st_tab st')) = [6; 7] /\
+                                  snd (acc_step st' (mkEntry 5 1 0 [1])) = ORejected
+                    | None => False end
+  | None => False
+  end.
+Proof. vm_compute. repeat split; reflexivity. Qed.
+
 (* replicas that snapshot + restart at different points of the same log are
    indistinguishable from one that never restarted (and so from each other):
    same result for every entry, same session table, same user state *)
